@@ -49,6 +49,17 @@ type Prop struct {
 	// keeps process-global state (label index, type caches). A child that dies
 	// is a violation of class "crash". A replay file carries the batch prefix.
 	Isolated bool
+	// Expand, when set, derives further runs from a finished one (used to
+	// enumerate every single-kill point of a sampled universe and schedule).
+	// Each derived run is executed, accounted and judged like a generated one.
+	Expand func(c CaseI, out *Outcome, tier string) []Derived
+}
+
+// Derived is a run derived from another one: a case plus the decision
+// vector to replay (nil = the case's policy decides).
+type Derived struct {
+	Case    CaseI
+	Choices []uint32
 }
 
 // runSpec is one execution request.
@@ -356,7 +367,7 @@ func explore(e *executor, job *Job) {
 			break
 		}
 		n := min(bsize, len(queue))
-		idxs := queue[:n]
+		idxs := append([]int{}, queue[:n]...)
 		queue = queue[n:]
 		specs := make([]runSpec, n)
 		for k, i := range idxs {
@@ -371,8 +382,28 @@ func explore(e *executor, job *Job) {
 			writeJSON(filepath.Join(job.OutDir, "case.json"), specs[0].c)
 		}
 		outs := e.batch(specs, false)
-		for k, out := range outs {
-			i, c := idxs[k], specs[k].c
+		var derived []Derived
+		for k := 0; k < len(outs) || len(derived) > 0; k++ {
+			var out *Outcome
+			var i int
+			var c CaseI
+			isDerived := k >= len(outs)
+			if !isDerived {
+				out, i, c = outs[k], idxs[k], specs[k].c
+			} else {
+				// a derived run: executed alone, accounted like any other
+				if len(res.Violations) >= job.MaxViol || (job.Deadline > 0 && time.Now().Unix() > job.Deadline) {
+					break
+				}
+				d := derived[0]
+				derived = derived[1:]
+				i, c = idxs[len(idxs)-1], d.Case
+				specs = append(specs, runSpec{c, d.Choices})
+				out = e.batch([]runSpec{{c, d.Choices}}, false)[0]
+				outs = append(outs, out)
+				idxs = append(idxs, i)
+				res.Counters["derived-runs"]++
+			}
 			runSeed := Mix(job.Seed, uint64(i))
 			res.Runs++
 			res.Steps += int64(out.Res.Steps)
@@ -392,6 +423,9 @@ func explore(e *executor, job *Job) {
 			res.Policies[c.SchedCfg().Policy]++
 			if out.NonTrivial {
 				hashes[out.Res.Hash] = struct{}{}
+			}
+			if os.Getenv("CUESIM_DEBUGHASH") != "" {
+				fmt.Fprintf(os.Stderr, "run %d derived=%v hash=%016x steps=%d nontrivial=%v faults=%v\n", i, isDerived, out.Res.Hash, out.Res.Steps, out.NonTrivial, out.Faults)
 			}
 			if job.Mode == "hashes" {
 				cls := ""
@@ -413,18 +447,23 @@ func explore(e *executor, job *Job) {
 					"decisions": len(out.Res.Choices), "log_hash": fmt.Sprintf("%016x", out.Res.Hash), "faults_fired": out.Faults, "event_log": log,
 				})
 			}
+			if v == nil && !isDerived && p.Expand != nil && job.Mode == "explore" && !p.Isolated {
+				derived = append(derived, p.Expand(c, out, job.Tier)...)
+			}
 			if v == nil || job.Mode != "explore" {
 				continue
 			}
 			// a violation: whatever follows in this batch ran in a process whose state may be
 			// damaged; those runs are repeated in a later batch
-			queue = append(append([]int{}, idxs[k+1:]...), queue...)
+			if p.Isolated {
+				queue = append(append([]int{}, idxs[k+1:]...), queue...)
+			}
 			if known[out.Key] {
 				res.KnownHits[out.Key]++
 				break
 			}
 			var prefix []runSpec
-			for q := 0; q < k; q++ {
+			for q := 0; q < k && p.Isolated; q++ {
 				prefix = append(prefix, runSpec{specs[q].c, nonNil(outs[q].Res.Choices)})
 			}
 			rp, tr := minimise(e, job, i, runSeed, prefix, c, out)
@@ -432,7 +471,11 @@ func explore(e *executor, job *Job) {
 				res.Trouble = append(res.Trouble, tr)
 				break
 			}
-			path := filepath.Join(job.OutDir, fmt.Sprintf("replay-%s-%d.json", p.ID, i))
+			name := fmt.Sprintf("replay-%s-%d.json", p.ID, i)
+			if isDerived {
+				name = fmt.Sprintf("replay-%s-%d-d%d.json", p.ID, i, k)
+			}
+			path := filepath.Join(job.OutDir, name)
 			writeJSON(path, rp)
 			res.Violations = append(res.Violations, path)
 			break
